@@ -66,6 +66,15 @@ def run(chk):
                                             "received": {"method": r["method"], "raw_path": r["raw_path"],
                                                          "body": r["body"].decode(errors="replace"),
                                                          "headers": r["headers"]}})
+    # nonces never repeat -- also not across worker processes forked after the library was imported
+    forked = _nonces_in_forked_workers(3, 4)
+    flat = [n for ns in forked for n in ns]
+    chk.count("nonces_from_forked_workers", len(flat))
+    if len(set(flat)) != len(flat):
+        dup = sorted({n for n in flat if flat.count(n) > 1})
+        chk.violation("sig:nonce-repeated-across-processes",
+                      f"{len(dup)} Bitstamp nonce(s) were generated twice by worker processes forked from one parent: "
+                      f"{dup[:2]}", {"kind": "monitor", "workers": 3, "nonces_per_worker": 4, "nonces": forked})
     # the encoders against the model: every byte, and random strings / parameter lists
     cases = [([b], list(quote_plus(bytes([b])).encode())) for b in range(256)]
     for _ in range(common.tier_n(chk.tier, 200, 4000)):
@@ -85,6 +94,20 @@ def run(chk):
         chk.violation("correspondence:Wire.UrlEnc", "the model of quote_plus / urlencode and urllib disagree",
                       {"broken": "correspondence Wire.UrlEnc.quote_plus <-> urllib.parse.quote_plus"},
                       no_failing_input=True)
+
+
+def _nonce_worker(k):
+    from basana.external.bitstamp import helpers
+    return [helpers.generate_nonce() for _ in range(k)]
+
+
+def _nonces_in_forked_workers(workers, k):
+    import multiprocessing
+    from basana.external.bitstamp import helpers      # imported (and used once) in the parent, before forking
+    helpers.generate_nonce()
+    ctx = multiprocessing.get_context("fork")
+    with ctx.Pool(workers) as pool:
+        return pool.map(_nonce_worker, [k] * workers, chunksize=1)
 
 
 def replay(chk, path):
